@@ -307,10 +307,11 @@ HARNESSES.append(
 _URLS = ['http://example.com/', 'http://example.com/d/f.html', 'http://example.com/d/', 'http://example.com/dx/f.zip',
          'https://example.com/d/sub/g.ZIP', 'http://sub.example.com/d/f.html', 'http://example.com:8080/d/f.html',
          'ftp://example.com/d/f.html', 'http://other.invalid/d/f.html', 'http://192.0.2.7/d', 'https://example.com/e/f.html',
-         'mailto:user@example.com', 'http://sub.example.com.evil.test/d/f.html', 'http://example.com.cdn.test/', 'http://notexample.com/d/', 'http://example.com./d/f.html']
+         'mailto:user@example.com', 'http://sub.example.com.evil.test/d/f.html', 'http://example.com.cdn.test/', 'http://notexample.com/d/', 'http://example.com./d/f.html',
+         'https://example.com:8443/e/f.html', 'https://example.com/e/up.html', 'http://example.com:8080/e/f.html', 'https://example.com:8080/d/sub/x']
 _UIS = [URLInfo.parse(u) for u in _URLS]
 _PARENTS = [None, 'http://example.com/d/index.html', 'https://other.invalid/p.html', 'ftp://example.com/d/']
-_ROOTS = [None, 'http://example.com/d/index.html', 'https://example.com/d/', 'http://example.com/d', 'http://example.com:8080/']
+_ROOTS = [None, 'http://example.com/d/index.html', 'https://example.com/d/', 'http://example.com/d', 'http://example.com:8080/', 'http://example.com:8080/d/index.html']
 
 
 class _LazyRecord:
@@ -599,6 +600,12 @@ def _consulted_ftp(verdict, ui, lt, glob):
     url, events, item, env = _ftp_events(verdict, ui, lt, glob, False)
     helper_region = (lt == 0 and ui != 1) or (ui == 2 and glob)      # D13: helper listing of the parent directory / glob directory
     if helper_region:
+        if not verdict:
+            # the URL itself is rejected: then there is no traffic at all, helper listing included (D13 is about the helper
+            # listing of an ACCEPTED URL not being put to the filters)
+            hit('rejected')
+            return not any(e[0] in ('start', 'start_listing', 'download', 'download_listing') for e in events) and \
+                env.table.rows[url].status == Status.skipped
         return True
     allowed = {url, url + '/'}
     saw_filter = False
